@@ -10,7 +10,7 @@ import (
 
 func init() {
 	register("C11", propMeta{
-		Explanation: "E-CONST + E-PROV + ordering rule + E-GUARD. O-1 path codec agreement: EncodePath and DecodePath use base64.RawURLEncoding and the same format byte '0'; DecodePath decodes the substring after strings.LastIndexByte(rest, '/') so that nothing before the last slash influences the result. O-2 one handler behind both endpoints: ampClientOffers hands the DecodePath result as Arg.Body to the same (*IPC).ClientOffers that clientOffers calls and writes the returned response bytes, unmodified, to the armor encoder, which it closes on every path after creating it. O-3 fronting shape: in both Exchange methods, exactly on the front != \"\" edge, the store req.Host <- req.URL.Host precedes the store req.URL.Host <- front, and neither field is written anywhere else. O-4 status and size are errors, never truncated data: the body is read only through the false edge of StatusCode != 200 (compared for equality with the constant 200); limitedRead wraps the body in LimitedReader{N: limit+1} and returns a non-nil error when limit+1 bytes arrived; the HTTP Exchange returns limitedRead(body, 100000); the AMP Exchange wraps the body in io.LimitReader(_, readLimit+1) before decoding and returns a non-nil error on the N == 0 edge. O-5 cache URL constants: domainPrefix accepts the basic algorithm's result only on err == nil and len(result) <= 63 (measured on the result, not the input), else uses the SHA-256/base32 fallback (lower-case alphabet, no padding); CacheURL appends \"s\" exactly for https, and rejects other schemes, userinfo, non-default ports and a cache query or fragment by error returns. Added after the second seeding round: O-3 requires the Host header value to be the Host of this very request's URL (req.URL.Host), not of another URL the rendezvous knows; O-2b/C14 the IPC error-mapping obligation of C14 on ampClientOffers and clientOffers (an IPC error answers 5xx on both endpoints). Stores and the LimitReader are also found in same-package helpers, with operands mapped back along the call chain. Added after the third seeding round: O-1b the endpoint paths resolved against the broker URL are relative references, so the broker URL's own path is kept. Added after the fourth seeding round: O-2 what DecodePath receives is the request path minus exactly the routing prefix the endpoint is registered under (TrimPrefix or a HasPrefix-guarded slice, not TrimLeft); O-5b the five steps of the AMP basic algorithm on one value chain, the 0-...-0 wrap tied to hyphens at indexes 2 and 3; O-5c no store through a *url.URL parameter or a URL field of a rendezvous object. Added after the fifth seeding round: O-3 with a front configured no path reaches the round trip without the Host/URL rewriting; O-2c/C14 the POST handler treats a body as legacy exactly when it starts with '{' (C14's legacy-shim obligations).",
+		Explanation: "E-CONST + E-PROV + ordering rule + E-GUARD. O-1 path codec agreement: EncodePath and DecodePath use base64.RawURLEncoding and the same format byte '0'; DecodePath decodes the substring after strings.LastIndexByte(rest, '/') so that nothing before the last slash influences the result. O-2 one handler behind both endpoints: ampClientOffers hands the DecodePath result as Arg.Body to the same (*IPC).ClientOffers that clientOffers calls and writes the returned response bytes, unmodified, to the armor encoder, which it closes on every path after creating it. O-3 fronting shape: in both Exchange methods, exactly on the front != \"\" edge, the store req.Host <- req.URL.Host precedes the store req.URL.Host <- front, and neither field is written anywhere else. O-4 status and size are errors, never truncated data: the body is read only through the false edge of StatusCode != 200 (compared for equality with the constant 200); limitedRead wraps the body in LimitedReader{N: limit+1} and returns a non-nil error when limit+1 bytes arrived; the HTTP Exchange returns limitedRead(body, 100000); the AMP Exchange wraps the body in io.LimitReader(_, readLimit+1) before decoding and returns a non-nil error on the N == 0 edge. O-5 cache URL constants: domainPrefix accepts the basic algorithm's result only on err == nil and len(result) <= 63 (measured on the result, not the input), else uses the SHA-256/base32 fallback (lower-case alphabet, no padding); CacheURL appends \"s\" exactly for https, and rejects other schemes, userinfo, non-default ports and a cache query or fragment by error returns. Added after the second seeding round: O-3 requires the Host header value to be the Host of this very request's URL (req.URL.Host), not of another URL the rendezvous knows; O-2b/C14 the IPC error-mapping obligation of C14 on ampClientOffers and clientOffers (an IPC error answers 5xx on both endpoints). Stores and the LimitReader are also found in same-package helpers, with operands mapped back along the call chain. Added after the third seeding round: O-1b the endpoint paths resolved against the broker URL are relative references, so the broker URL's own path is kept. Added after the fourth seeding round: O-2 what DecodePath receives is the request path minus exactly the routing prefix the endpoint is registered under (TrimPrefix or a HasPrefix-guarded slice, not TrimLeft); O-5b the five steps of the AMP basic algorithm on one value chain, the 0-...-0 wrap tied to hyphens at indexes 2 and 3; O-5c no store through a *url.URL parameter or a URL field of a rendezvous object. Added after the fifth seeding round: O-3 with a front configured no path reaches the round trip without the Host/URL rewriting; O-2c/C14 the POST handler treats a body as legacy exactly when it starts with '{' (C14's legacy-shim obligations). Added after the sixth seeding round and the mutation audit: O-2 what DecodePath receives derives from URL.Path, not from EscapedPath/RawPath/RequestURI.",
 		NotDecided:  "conformance of the basic algorithm with the AMP specification on IDN inputs, URL escaping details, byte equality of AMP and POST responses (value-level).",
 		Assumptions: []string{"net/http sends req.Host as the Host header and connects to req.URL.Host", "idna, base32, sha256 behave as documented"},
 	}, runC11)
@@ -195,6 +195,44 @@ func runC11(c *Ctx) {
 					c.undecided(rule2, "ampClientOffers strips exactly its routing prefix", p.Pos(aco.Pos()), "route registration, DecodePath call or prefix removal not recognised")
 				} else {
 					c.check(okTrim, rule2, "ampClientOffers strips exactly its routing prefix", p.instrPos(dcall), how+" with the registered route "+fmt.Sprintf("%q", route), "the path handed to DecodePath is not the request path minus exactly the routing prefix ("+how+"): characters of a malformed path are silently dropped (TrimLeft strips a character set) or the prefix differs from the registered route, so ill-formed polls are answered as real ones or well-formed ones rejected")
+				}
+			}
+			// ... and that request path is the decoded one (URL.Path), which is what the mux routed on: the escaped
+			// spelling (EscapedPath, RawPath, RequestURI) of an equivalent path differs in its %XX sequences
+			{
+				var dcall *ssa.Call
+				for _, d := range deepCalls(aco, 2, funcFullName(dp)) {
+					dcall, _ = d.In.(*ssa.Call)
+				}
+				if dcall != nil {
+					fromPath, fromRaw := false, ""
+					flows(dcall.Call.Args[0], func(v ssa.Value) bool {
+						if _, f, ok := fieldLoad(v); ok && f.Pkg() != nil && f.Pkg().Path() == "net/url" {
+							switch f.Name() {
+							case "Path":
+								fromPath = true
+							case "RawPath", "RawQuery", "Opaque":
+								fromRaw = "URL." + f.Name()
+							}
+						}
+						if _, f, ok := fieldLoad(v); ok && f.Name() == "RequestURI" {
+							fromRaw = "Request.RequestURI"
+						}
+						if cc, _, ok := callResult(v); ok {
+							switch calleeName(cc) {
+							case "(*net/url.URL).EscapedPath", "(*net/url.URL).RequestURI", "(*net/url.URL).String", "(*net/url.URL).EscapedFragment":
+								fromRaw = calleeName(cc)
+							}
+						}
+						return false
+					})
+					if fromRaw != "" {
+						c.viol(rule2, "ampClientOffers decodes the unescaped request path", p.instrPos(dcall), "what DecodePath receives derives from "+fromRaw+": a request whose path spells a character as %XX is routed to this handler (the mux matches the unescaped path) and then refused, while the same poll is answered on the POST endpoint")
+					} else if fromPath {
+						c.ok(rule2, "ampClientOffers decodes the unescaped request path", p.instrPos(dcall), "derives from URL.Path")
+					} else {
+						c.undecided(rule2, "ampClientOffers decodes the unescaped request path", p.instrPos(dcall), "the origin of the path is not recognised")
+					}
 				}
 			}
 			// response written unmodified to the encoder
